@@ -154,3 +154,8 @@ impl<W: AsyncWrite + fmt::Debug> fmt::Debug for CryptWriter<W> {
             .finish()
     }
 }
+
+#[cfg(kani)]
+pub(crate) mod verif {
+    include!(concat!(env!("LIBP2P_VERIF"), "/hooks/pnet_crypt_writer.rs"));
+}
